@@ -512,7 +512,7 @@ func ruleC08KindGroups(c *Ctx) {
 			}
 		default:
 			callee := call.Call.StaticCallee()
-			if callee != nil && c.P.InPkg(callee) && (callee.Name() == "property" || callee.Name() == "properties" || callee.Name() == "numPropertiesBounds") {
+			if callee != nil && c.P.InPkg(callee) && (core.FuncName(callee) == "property" || core.FuncName(callee) == "properties" || core.FuncName(callee) == "numPropertiesBounds") {
 				allowed, what = Kinds(kMap, kStruct), "object keywords"
 			}
 		}
@@ -530,7 +530,7 @@ func ruleC08KindGroups(c *Ctx) {
 		core.EachInstr(fn, func(i ssa.Instruction) {
 			if call, ok := i.(*ssa.Call); ok {
 				callee := call.Call.StaticCallee()
-				if callee != nil && c.P.InPkg(callee) && (callee.Name() == "property" || callee.Name() == "properties") && len(call.Call.Args) > 0 && isSame(call.Call.Args[0]) {
+				if callee != nil && c.P.InPkg(callee) && (core.FuncName(callee) == "property" || core.FuncName(callee) == "properties") && len(call.Call.Args) > 0 && isSame(call.Call.Args[0]) {
 					uses = true
 				}
 			}
@@ -588,7 +588,7 @@ func ruleC08KindGroups(c *Ctx) {
 		core.EachInstr(m.E, func(i ssa.Instruction) {
 			if call, ok := i.(*ssa.Call); ok {
 				callee := call.Call.StaticCallee()
-				if callee != nil && c.P.InPkg(callee) && (callee.Name() == "property" || callee.Name() == "properties") && len(call.Call.Args) > 0 && isSame(call.Call.Args[0]) {
+				if callee != nil && c.P.InPkg(callee) && (core.FuncName(callee) == "property" || core.FuncName(callee) == "properties") && len(call.Call.Args) > 0 && isSame(call.Call.Args[0]) {
 					if !core.Dominates(keyKindTest, call) {
 						okDom = false
 					}
